@@ -152,7 +152,11 @@ class Sys(e1.TimedSys):
             m.values[4] = b"\x04"
             m.events6 = (3, 4)
             self.new_event_window = True  # rounds / initial notifications on their way may or may not include it
-            self.eg[6].values[4] = b"\x04"
+            if self.cfg.get("new_event") == "rebind":
+                # the application replaces the whole table (`values` is a plain public attribute) instead of adding a key
+                self.eg[6].values = {**self.eg[6].values, 4: b"\x04"}
+            else:
+                self.eg[6].values[4] = b"\x04"
         elif act[0] == "notify":
             _, g, evs = act
             self.eg[g].notify_once(list(evs))
@@ -320,6 +324,8 @@ def configs(ctx):
                                                             endpoints=("e1", "e1t"), deviations=0, fine=0), CLOSURE))
     out.append(("cyclic-group-new-event", dict(sid=sid, major=major, advs=(None, "next"), groups=(6,), endpoints=("e1",),
                                                deviations=1, fine=0, new_event=True), CLOSURE))
+    out.append(("cyclic-group-values-replaced", dict(sid=sid, major=major, advs=(None, "next"), groups=(6,), endpoints=("e1",),
+                                                     deviations=1, fine=0, new_event="rebind"), CLOSURE))
     out.append(("both-groups", dict(sid=sid, major=major, advs=(None, "next"), groups=(5, 6), endpoints=("e1", "e2"),
                                     deviations=ctx.pick(0, 1), fine=0), CLOSURE))
     return out
